@@ -77,6 +77,8 @@ def cases(tier, seed):
         for z, x, generic in _orientations(tier):
             out.append({"ant": kind, "z": list(z), "x": list(x), "generic": generic})
         out.append({"ant": kind, "signals": True})
+        if kind == "gant":
+            out.append({"ant": "gant_pos", "signals": True})
         # one antenna object walked through the whole orbit with set_orientation (state graph: orientation history)
         out.append({"ant": kind, "walk": True, "tier": tier})
     return out
@@ -85,6 +87,10 @@ def cases(tier, seed):
 def _resp_ref(f):
     fc = 1 / (8 * DT)
     return 1 / (1 + 1j * f / fc)
+
+
+def _resp_pos(f):
+    return (0.5 + 0.25j) / (1 + 1j * f * 8 * DT) if f > 0 else 0.75
 
 
 def _make(kind, z, x):
@@ -105,9 +111,18 @@ def _make(kind, z, x):
             fc = 1 / (8 * DT)
             return 1 / (1 + 1j * np.asarray(frequencies) / fc)
 
+    class GAntPos(GAnt):
+        # a response specified for positive frequencies only, as tabulated antenna models are: not conjugate-symmetric, so
+        # force_real matters
+        def frequency_response(self, frequencies):
+            f = np.asarray(frequencies, dtype=float)
+            return np.where(f > 0, (0.5 + 0.25j) / (1 + 1j * f * 8 * DT), 0.75)
+
     pos = (3.0, -4.0, -100.0)
     base = kind.replace("sys_", "")
-    if base == "gant":
+    if base == "gant_pos":
+        mk = lambda: GAntPos(pos, z, x)
+    elif base == "gant":
         mk = lambda: GAnt(pos, z, x)
     else:
         def mk():
@@ -200,7 +215,8 @@ def _signal_case(case):
     geoms = [((0, 0, 1), (1, 0, 0), (1, 0, -1), (0, 1, 1)), ((1, 1, 1), (1, -1, 0), (0, -1, 1), (1, 0, 0))]
     for z, x, d, p in geoms:
         obj, ant = _make(kind, z, x)
-        resp = (lambda f: complex(ant.frequency_response(np.array([f]))[0])) if "dipole" in kind else _resp_ref
+        resp = (lambda f: complex(ant.frequency_response(np.array([f]))[0])) if "dipole" in kind else (
+            _resp_pos if "gant_pos" in kind else _resp_ref)
         dg, pg, eff, factor = _expected_gains(kind, ant, z, x, d, p)
         outs = {}
         for fr in (False, True):
@@ -290,6 +306,33 @@ def _signal_case(case):
                                  % (rep_, np.asarray(out.values)[:3].tolist(), exp[:3].tolist())))
         if not np.array_equal(np.asarray(fsig.values), vv) or fsig.value_type != T.voltage:
             fails.append(_sf("input-mutated", kind, "apply_response modified the FunctionSignal it was given"))
+        # receive of ONE signal (not a list) stores exactly what apply_response returns, for either force_real
+        for fr in (False, True):
+            ant.clear()
+            n += 1
+            s0 = Signal(t, base[3], T.field)
+            obj.receive(s0, direction=d, polarization=p, force_real=fr)
+            e = np.asarray(obj.apply_response(s0, direction=d, polarization=p, force_real=fr).values)
+            if len(ant.signals) != 1 or not np.max(np.abs(np.asarray(ant.signals[0].values) - e)) <= 1e-13:
+                fails.append(_sf("receive-single", kind, "receive(signal, force_real=%s) stored %s..., apply_response gives %s..."
+                                 % (fr, np.asarray(ant.signals[0].values)[:3].tolist() if ant.signals else None, e[:3].tolist())))
+        ant.clear()
+        # the frequency response is a function of the frequencies it is handed and leaves that array alone
+        fgrid = np.array(dft.freqs(2 * N, DT), dtype=np.float64)
+        fkeep = fgrid.copy()
+        r1 = np.array(ant.frequency_response(fgrid))
+        r2 = np.array(ant.frequency_response(fgrid))
+        n += 1
+        if not np.array_equal(fgrid, fkeep) or not np.array_equal(r1, r2, equal_nan=True):
+            fails.append(_sf("response-argument-modified", kind, "frequency_response changed the frequency array it was given "
+                             "(or answers differently the second time)"))
+        # two stages: the (lazy) response to a FunctionSignal handed on to the antenna again -- the response squared
+        out2 = obj.apply_response(obj.apply_response(fsig, direction=d, polarization=p), direction=d, polarization=p)
+        ref2, _ = dft.filtered_reference(vv, DT, lambda f_: resp(f_) ** 2, False)
+        n += 1
+        if not np.max(np.abs(np.asarray(out2.values) - ref2 * (dg * pg * eff) ** 2)) <= 1e-11:
+            fails.append(_sf("function-input-two-stage", kind, "two passes of a FunctionSignal through the antenna: %s..., expected %s..."
+                             % (np.asarray(out2.values)[:3].tolist(), (ref2 * (dg * pg * eff) ** 2)[:3].tolist())))
         # receive of an (s,p) pair == sum of the two responses, exactly one signal stored
         ant.clear()
         s1 = Signal(t, base[0], T.field)
